@@ -42,8 +42,8 @@ Theorem rabin_action_moore_indep po zk yki xkijr :
   Forall indep goals -> Forall indep holds ->
   indep (rabin_action nc nx ny H G E S holds goals true po zk yki xkijr).
 Proof.
-  intros Hz Hy Hx Hg Hh. unfold rabin_action. cbv zeta.
-  destruct po.
+  intros Hz Hy Hx Hg Hh. unfold rabin_action, rabin_action_k. cbv beta zeta.
+  destruct po; cbn [negb].
   2: { destruct (fold_left _ (tl zk) _) as [r1 b1].
        destruct (fold_left _ (combine (combine zk yki) xkijr) _) as [[[r2 r3] r4] b2].
        apply indep_forall_envp. }
@@ -228,7 +228,7 @@ Theorem rabin_memory_range mo po zk yki xkijr :
   (E v = true -> rh H G v <= nh /\ rg H G v <= ng1 /\ rhp H G v <= nh /\ rgp H G v <= ng1) /\
   (po = true -> rh H G v <= nh /\ rg H G v <= ng1).
 Proof.
-  intros Hlen v Hv. unfold rabin_action. cbv zeta.
+  intros Hlen v Hv. unfold rabin_action, rabin_action_k. cbv beta zeta.
   (* rho_1 *)
   match goal with |- context [fold_left ?f (tl zk) ?a] =>
     assert (H1 : SubE (fst (fold_left f (tl zk) a))) end.
@@ -289,7 +289,7 @@ Proof.
       apply (HS v Hv Hr He). }
     unfold Rm in HR. rewrite Hl1, Hl2 in HR. cbn in HR.
     apply andb_true_iff in HR. destruct HR as [A B]. apply Nat.leb_le in A, B. auto. }
-  destruct po.
+  destruct po; cbn [negb].
   - intros Hact. destruct (Hu0 Hact) as [Hb Ha]. split; [|auto].
     intros He. destruct (Ha He). tauto.
   - destruct mo.
